@@ -7,9 +7,9 @@ NOTE = ("Trusted: Coq 8.16.1 kernel (vm_compute for finite sweeps, no native_com
         "the hand-written Gallina model (coq/*Impl.v, ZoneLoad.v) is tied to /repo by differential correspondence on generated cases each run and by constants regenerated from the source (coq/SrcConstants.v); "
         "extraction with ExtrOcamlBasic only; ocaml/driver*.ml, harness/*.cc, g++ ASan/UBSan. Modelled, not verified: libstdc++, <chrono>, the compiler.")
 CHECKS = {
- "C01": ("Theorems over every year of Z: TransOffset's modular week arithmetic equals the calendar reading of Jn/n/Mm.w.d (sweep lifted by periodicity), the rule is 400-year periodic, the 402-iteration extension loop generates exactly the rule instants without overflow; table lookup = latest transition at or before t for every sorted table and every hint. Correspondence: model, an independent spec that reads the TZif bytes and evaluates the footer on the calendar, and the ASan/UBSan build of /repo on every shipped + synthetic zone at transition/seam/rule/400-year/extreme instants.",
+ "C01": ("Theorems over every year of Z: TransOffset's modular week arithmetic equals the calendar reading of Jn/n/Mm.w.d (sweep lifted by periodicity), the rule is 400-year periodic, the 402-iteration extension loop generates exactly the rule instants without overflow; table lookup = latest transition at or before t for every sorted table and every hint; c01_future_lookup: beyond the table BreakTime equals the table's answer 400k years earlier re-dated, and rule_window/rule_state_periodic tie the generated window to the footer rule. Correspondence: model, an independent spec that reads the TZif bytes and evaluates the footer on the calendar, and the ASan/UBSan build of /repo on every shipped + synthetic zone at transition/seam/rule/400-year/extreme instants.",
          "proof + differential correspondence", "6 C01"),
- "C02": ("Theorem zmake_spec/zmake_kind_iff: for EVERY zone value satisfying the boolean certificate wfz (the property's own side condition) and EVERY civil second, the MakeTime case analysis returns UNIQUE/SKIPPED/REPEATED exactly when one/no/two instants display it, with pre/trans/post as stated (induction over unbounded transition lists, integer level). Correspondence of implementation vs model vs independent preimage-counting spec on all probe civil seconds.",
+ "C02": ("Theorem zmake_spec/zmake_kind_iff: for EVERY zone value satisfying the boolean certificate wfz (the property's own side condition) and EVERY civil second, the MakeTime case analysis returns UNIQUE/SKIPPED/REPEATED exactly when one/no/two instants display it, with pre/trans/post as stated (induction over unbounded transition lists, integer level); make_refines and c02_future_lookup carry it to the int64 implementation inside and beyond the table (400-year shift, saturating re-dating). Correspondence of implementation vs model vs independent preimage-counting spec on all probe civil seconds.",
          "proof (list induction, lia) + differential correspondence", "6 C02"),
  "C03": ("Theorems zroundtrip/zdisplays_back/zbreak_spec for every wfz zone and every instant; composed correspondence lookup(t)->lookup(cs) on the implementation.", "proof + differential correspondence", "6 C03"),
  "C04": ("Theorem n_sec_refines: for ALL int64^6 arguments within exactly the property's representability bound the transcription of n_sec..n_day returns OK of the unique valid calendar date-time (no overflow, loops terminate within stated fuel); calendar bijection, successor characterisation, alignment lemmas. Correspondence incl. the exhaustive 146097-day base (thorough) under UBSan.", "proof (refinement to a calendar spec) + differential correspondence", "6 C04"),
@@ -28,9 +28,9 @@ CHECKS.update({
  "C18": ("Theorems for ALL periods num/den, ALL tick counts and ALL rep widths: split = floor with remainder in [0,1s) (split_floor), join into coarser types = floor with failure exactly when the count does not fit (join_floor, join_seconds_exact), femtosecond conversion truncates (femto_truncates). Correspondence on the panel of 12 duration types at every remainder class and at the representation limits, through lookup/convert/format/parse.", "proof + differential correspondence", "6 C18"),
  "C19": ("Twelve decision-rule theorems over all names, environments and file-system oracles (NameRes.v); correspondence over the matrix TZDIR x TZ x LOCALTIME x names in child processes, with the file system entering through a measured oracle. Kernel file semantics are observed, not proved.", "proof (partial: kernel semantics via measured oracle) + configuration matrix", "6 C19"),
  "C20": ("Theorems over ALL schedules: factory_on_caller, factory_not_for_fixed, factory_calls_bounded_partial; over all serial schedules: factory_once_sequential; and factory_once_refuted: the contract's 'only once' / 'serially' is FALSE of the code for two concurrent first loads of one name (known finding F7, exhibited on the real library by the parking harness for every such schedule).", "proof (incl. machine-checked refutation) + exhaustive schedule correspondence", "6 C20"),
- "C07": ("Component inverses, each unbounded: parse(format64 v) = v for every int64 incl. INT64_MIN, two-digit fields, offsets (full-resolution modes lossless for |off|<24h; minute modes exactly when the offset has no seconds; refuted at 24h = finding F6), femtosecond fractions. Composition checked by correspondence: lossless formats generated from the boolean lossless_fmt x zones (real, synthetic, fixed) x extreme instants x femtosecond values, implementation format->parse vs model vs expected (t, fs).", "proof (component inverses) + differential correspondence of the composition", "6 C07"),
+ "C07": ("Component inverses, each unbounded: parse(format64 v) = v for every int64 incl. INT64_MIN, two-digit fields, offsets (full-resolution modes lossless for |off|<24h; minute modes exactly when the offset has no seconds; refuted at 24h = finding F6), femtosecond fractions; rfc3339_roundtrip: the whole format->parse pipeline for %Y-%m-%dT%H:%M:%E*S%E*z returns (t, fs) for every instant, fs < 10^15 and |offset| < 24h. Other compositions checked by correspondence: lossless formats generated from the boolean lossless_fmt x zones (real, synthetic, fixed) x extreme instants x femtosecond values, implementation format->parse vs model vs expected (t, fs).", "proof (component inverses) + differential correspondence of the composition", "6 C07"),
  "C08": ("format_safe: for EVERY byte string as format, every oracle, every valid lookup result: no scratch-buffer overflow, table overrun, integer overflow or fuel exhaustion; format_lib_only: formats of literals, %% and the library-defined specifiers render exactly the documented text (no oracle involved); to_tm_spec. strftime itself is an oracle (real libc in the correspondence run). Correspondence: random/odd/dangling formats x zones x extreme instants under ASan+UBSan vs model and vs the token-wise spec.", "proof (partial: strftime is an oracle) + differential correspondence", "6 C08"),
- "C09": ("parse_int_sound (never wraps, never over-reads, width respected), scan_range (every internally handled field within the ranges read from the source), scan_safe (the scanner never overflows or over-reads for ANY pair of byte strings and any oracle). The instant denoted is checked by correspondence against expectations computed from chosen field values by the calendar/zone spec, incl. leap second, offsets, limits and single-edit mutants.", "proof (scanner soundness/safety) + differential correspondence", "6 C09"),
+ "C09": ("parse_int_sound (never wraps, never over-reads, width respected), scan_range (every internally handled field within the ranges read from the source), scan_safe (the scanner never overflows or over-reads for ANY pair of byte strings and any oracle), finish_utc_correct (parse's whole post-processing = the denoted instant whenever fields are read in UTC). For other zones the instant denoted is checked by correspondence against expectations computed from chosen field values by the calendar/zone spec, incl. leap second, offsets, limits and single-edit mutants.", "proof (scanner soundness/safety) + differential correspondence", "6 C09"),
 })
 NA = {}
 def main():
